@@ -70,7 +70,12 @@ pub fn expected(chain: &[Block], upto: u64, floor: u64) -> Snapshot {
     }
     snap.blocks.sort_by(|a, b| (a.0, &a.2).cmp(&(b.0, &b.2)));
     snap.txs.sort();
-    for start in complete_range_starts(upto) {
+    // a range root exists only for a *complete* range: complete with respect to the blocks the
+    // chain has up to the target (a target beyond the tip completes nothing)
+    let Some(reached) = chain.iter().filter(|b| b.number <= upto).map(|b| b.number).max() else {
+        return snap;
+    };
+    for start in complete_range_starts(reached.min(upto)) {
         let blocks = in_range(chain, start, start + RANGE, upto);
         if let Some(r) = new_root_of(&blocks) {
             snap.roots.push((start, start + RANGE, r));
